@@ -17,7 +17,7 @@ pub fn def() -> PropDef {
     PropDef {
         id: "C08",
         level: "exploration",
-        profiles: &["checked"],
+        profiles: &["checked", "fast"],
         abort_is_violation: false,
         rule: "Part A (bounds): every input of the C01 generators that is rejected with a syntax error, under a \
                generated feed: 1 <= line <= number of lines + 1 and 1 <= column <= length of that line + 1, lines \
@@ -32,6 +32,7 @@ pub fn def() -> PropDef {
                token's line and its column must lie on the corrupted token. Non-trivial: Part A - error beyond \
                line 1 or column 1; Part B - every applicable corruption. Distinct by hash.",
         assumptions: &[
+            "shards alternate between a build with overflow checks and a plain release build (an underflowing column computation is a panic in the former and a wrapped, out-of-bounds column in the latter)",
             "the token map of the reference renderer (harness/src/gen.rs) gives the true line/column of every token",
             "Part B only uses corruptions whose error position is unambiguous; ambiguous ones (e.g. a valid but different number) are not in the catalogue",
         ],
